@@ -122,6 +122,9 @@ def call_plan(kind, rng):
             ('jump_diffusivity', (int(rng.integers(1, 4)),), {}),
             ('jump_diffusivity', (), {'dimensions': int(rng.integers(1, 4))}),
             ('to_graph', (), {}),
+            ('to_graph', (), {'max_e_act': float(rng.choice([0.02, 0.05, 0.1, 0.3]))}),
+            ('to_graph', (), {'min_e_act': float(rng.choice([0.02, 0.05, 0.1]))}),
+            ('to_graph', (float(rng.choice([0.01, 0.04])), float(rng.choice([0.06, 0.2]))), {}),
             ('rates', (), {'n_parts': int(rng.integers(1, 4))}),
             ('collective', (), {'max_dist': float(rng.choice([0.5, 1.0, 2.0, 3.5]))}),
             ('collective', (), {}),
